@@ -118,7 +118,7 @@ theorem c05_reboot_first (s : Stack) (h : Header) (a : Addr) (mc : Bool) (m m' :
 store order), cancelling its TTL timer first -/
 theorem c05_flush_reports_all (s : Stack) (a : Addr) :
     s.foundStopAllFor a =
-      ((s.found.touch a).get a).foldl (fun s e => (s.cancelTimer isSvcExpiry e.timer).notifyService false e.key a)
+      ((s.found.touch a).get a).foldl (fun s e => (s.cancelTimer (isSvcExpiryFor a e.key) e.timer).notifyService false e.key a)
         { s with found := (s.found.touch a).set a [] } := rfl
 
 /-- an SD message whose unicast flag is clear has its entries ignored -/
